@@ -6,6 +6,7 @@ package hx
 
 import (
 	"time"
+	shimsync "verif/mc/shim/sync"
 
 	"verif/mc"
 )
@@ -51,3 +52,25 @@ func NoBlock(what string, f func()) { mc.NoBlock(what, f) }
 
 // Atomically runs f as one atomic step (it already is under the controlled scheduler).
 func Atomically(f func()) { f() }
+
+// Locker is a mutex whose ownership oracles can inspect.
+type Locker struct {
+	m        shimsync.Mutex
+	owner    int
+	Unlocks  int
+	OnUnlock func()
+}
+
+func (l *Locker) Lock() { l.m.Lock(); l.owner = mc.ThreadID() }
+
+func (l *Locker) Unlock() {
+	l.owner = -1
+	l.m.Unlock()
+	l.Unlocks++
+	if l.OnUnlock != nil {
+		l.OnUnlock()
+	}
+}
+
+// HeldByMe reports whether the calling thread holds the lock.
+func (l *Locker) HeldByMe() bool { return l.m.Held() && l.owner == mc.ThreadID() }
